@@ -412,6 +412,14 @@ func offsetOf(v ssa.Value) string {
 		return ""
 	}
 	n, _, _, _ = methodCall(recv)
+	if n == "" {
+		// the field read directly instead of through its getter (tr.end for tr.End())
+		if _, fld := fieldLoad(recv); fld == "start" {
+			return "Start"
+		} else if fld == "end" {
+			return "End"
+		}
+	}
 	return n
 }
 
